@@ -150,7 +150,7 @@ Definition ex_trace : list slab :=
     SStep 2 (LSsl {| a_meth := MRead; a_arg := 10; a_out := SWantRead; a_wdelta := [] |});
     SStep 2 LGo; SStep 2 (LT TSent); SStep 1 LGo; SStep 2 LGo ].
 Example ex_accepts :
-  option_map (fun r => (map snd (snd r), wbio (y_sh (fst r)))) (sys_exec {| f_recheck := false; f_skiplock := false |} sys0 ex_trace)
+  option_map (fun r => (map snd (snd r), wbio (y_sh (fst r)))) (sys_exec {| f_recheck := false; f_skiplock := false; f_close_flush := false |} sys0 ex_trace)
   = Some ([ASend [7; 7]%N; ARecv; AFeed [9]%N; ASend [5; 5; 5; 5]%N; ARecv], []).
 Proof. vm_compute. reflexivity. Qed.
 Example ex_cipher_only :
